@@ -22,6 +22,7 @@ def run(ctx, rep):
     runloop.r12l(ctx, rep)
     runloop.r12p(ctx, rep)
     runloop.r12q(ctx, rep)
+    runloop.r12v(ctx, rep)
     runloop.r12r(ctx, rep)
     runloop.r12s(ctx, rep)
     runloop.r13g(ctx, rep, rule="R12t")
